@@ -943,8 +943,9 @@ PROPS["C04"] = dict(
              "covered by the correspondence op rtm (both formatters, floats, f32, Value members, int keys: model text and model "
              "decoded value computed, 0 disagreements) and by rtt (zoo of real derived types, model = echo)",
              "floats: c04_value takes the hypothesis FloatsRoundTrip cfg ext v (for every Float in v, parsing the text ryu prints gives that "
-             "Float back); it is discharged by C07 (float_roundtrip) / C08 (short literals), not here; c04_value_nofloat and c04_value_ap "
-             "need no such hypothesis",
+             "Float back); under float_roundtrip it is now discharged: c04_value_fr needs only the named hypothesis RyuShortest about "
+             "the external printer (C07: c07_correct / c07_roundtrip); for the default build it remains a hypothesis (C08 covers short "
+             "literals); c04_value_nofloat and c04_value_ap need no such hypothesis",
              "c04_reparse: serialise-then-parse of a parsed value gives it back under the same float hypothesis FloatsRoundTrip (none "
              "under arbitrary_precision: c04_reparse_ap); that parsed values are well-formed is now hypothesis-free (c04_wf_of_parse)"],
     technique="Lean 4 theorems obtained by composing the Value fragment of C03 (serializer output = one RFC 8259 value with syntax tree "
@@ -957,7 +958,8 @@ PROPS["C04"] = dict(
               "(schema, value) pairs with computed model text and value (rtm)",
     level_text="Machine-checked: c04_value / c04_value_pretty (for every build, source, well-formed Value v and whitespace indent: the model "
                "serializer's output parses back to exactly v, given that the float printer/parser pair returns the floats of v), "
-               "c04_value_nofloat and c04_value_ap (no float hypothesis), c04_value_all_floats (global float hypothesis), with each clause "
+               "c04_value_nofloat and c04_value_ap (no float hypothesis), c04_value_all_floats (global float hypothesis), c04_value_fr (under "
+               "float_roundtrip every well-formed Value, all finite floats included, round-trips given only RyuShortest), with each clause "
                "of the representation invariant shown necessary by a counterexample; c04_wf_of_parse (whatever the parser returns, from any "
                "source in any build, satisfies the representation invariant — for &str given that the input is valid UTF-8; the finiteness "
                "of parsed floats is the theorem c04_parsed_floats_finite, from C08's c08_finite_signed through the parser link for the "
@@ -999,50 +1001,49 @@ PROPS["C07"] = dict(
         "IEEE-754 conformance of the hardware multiply/divide/int-to-float cast used by lexical's fast path; rustc's conversion of the "
         "float literals 1.0..1e22; serde's f32/f64 visitors (`as` casts)",
     ],
-    assumptions=["ryu prints the shortest text that round-trips (hypothesis RyuShortest of c07_roundtrip); exercised by f64pr/f32pr on "
-                 "every exponent and, for f32, exhaustively by f32all in the thorough tier",
-                 "literals with more than 2^31 digits (exponent arithmetic of exponent.rs saturates) are outside the statement"],
+    assumptions=["RyuShortest (hypothesis of c07_roundtrip and c04_value_fr, lean/SJ/Proofs/LexTopRoundtrip.lean): the text ryu prints for a "
+                 "finite float is an RFC 8259 number of at most 24 bytes (ryu::Buffer; at most 17 significant digits for f64, 9 for "
+                 "f32), written with a fraction or an exponent, exponent part at most 5 bytes, whose exact decimal value rounds to "
+                 "nearest-even to the float printed; exercised by f64pr/f32pr on every exponent and, for f32, exhaustively by f32all "
+                 "in the thorough tier",
+                 "literals with 2^29-20 or more digits (beyond 2^31 the exponent arithmetic of exponent.rs saturates) are outside "
+                 "c07_correct"],
     partial=[
-        "c07_correct_partial (f64 targets): deFloatRoundtrip = convertRoundtrip is proved from two explicit hypotheses: "
-        "ModOk false p = the missing lemma moderate_path_sound for the one call de.rs makes on p (if error_is_accurate accepts "
-        "the 80-bit product of the mantissa and the cached power, rounding it equals rounding the exact value; if it rejects, "
-        "the exact value lies in the neighbourhood of the downward-rounded product) - it was false on the pinned tree for the "
-        "literals of finding C07-moderate-truncated (repaired in /repo, eca65d4) and is now true but not yet proved; carried by "
-        "the exact-oracle sweep; and NoZeroTail false p = not the shape of finding C07-zero-tail (repaired, 1024dba; the "
-        "hypothesis is now redundant but still carried)",
-        "f32 targets: every layer (c07_split, c07_fast_path_exact, c07_into_float_rne, c07_bhcomp_exact, parse_concise/"
-        "parse_truncated = roundDec b32) is proved for both formats, but the final identification with convertRoundtripSingle "
-        "(the f32 analogue of conv64_eq, parked in docs/C07-parked-f32.lean.txt) and hence c07_correct_partial for f32 are not "
-        "assembled yet; the f32 clause is carried by the correspondence run (all families) and, for print->parse, by the "
-        "exhaustive 2^32 sweep",
-        "c07_roundtrip (print then parse is the identity on finite floats under RyuShortest) is a corollary of "
-        "c07_correct_partial not yet stated; ryu's output is checked against the specification on every sampled exponent "
-        "(f64pr/f32pr) and exhaustively for f32",
-        "the 'every finite f32 survives in every configuration' clause is a finite enumeration in the harness (f32all, 2^32 "
-        "patterns in fr, fr+ap and default builds), not a theorem",
+        "the 'every finite f32 survives in every configuration' clause (default build: f64 conversion then `as f32`) is a finite "
+        "enumeration in the harness (f32all, 2^32 patterns in fr, fr+ap and default builds), not a theorem",
+        "c07_all_sources links the Value target of the byte machine (all three sources, nested values) to deFloatRoundtrip; the typed "
+        "f64 target uses the same Model.Num.convertRoundtrip (Typed.parserNumber), the typed f32 target (Typed.f32Roundtrip) is not "
+        "linked to deFloatRoundtrip true by a theorem (carried by the correspondence runs of C07 and of the typed checks)",
+        "limb-level arithmetic of lexical/math.rs is abstracted by Nat in Model.Lexical (a limb-level model is a separate piece of work)",
     ],
     technique="Lean 4: extracted lexical tables proved against exact powers by kernel evaluation; transcription of lexical and its de.rs "
               "integration run bit for bit against the crate; independent exact-rational round-to-nearest-even oracle evaluated on the "
               "crate's output for constructed hard cases (exact midpoints, 768-digit limit, path frontiers)",
-    level_text="Machine-checked (Lean 4, no axioms beyond the three standard ones): c07_split (for every well-formed literal the leaf "
-               "of de.rs's digit collection and its arguments - significand/exponent, or scratch buffer split at integer_end, zero "
-               "padding, exponent sign - denote exactly the literal's digits and decimal exponent); c07_cached_power_accuracy (the 10 "
-               "small cached powers are exact, the 66 large ones are the truncated normalised 64-bit images of 10^k) and "
-               "c07_power_tables; c07_fast_path_exact (f64 and f32: the fast path returns the correctly rounded value); "
-               "c07_into_float_rne (into_float = IEEE round-to-nearest-even of the extended value, into_downward_float = round toward "
-               "zero, all 64-bit mantissas, subnormals, carry, overflow); c07_bhcomp_exact (the big-integer path with Bigint as Nat "
-               "returns the correctly rounded value, including the MAX_DIGITS truncation argument 2^54*5^1075 < 10^768); "
-               "c07_correct_partial (f64: de.rs + lexical = convertRoundtrip, i.e. nearest-even of the exact value, sign incl. -0.0, "
-               "underflow to +-0, out of range iff the rounding is infinite, exponent-overflow rule - under the explicit per-call "
-               "hypothesis moderate_path_sound and a shape hypothesis that the repaired code no longer needs). The transcription is run bit for bit against "
-               "the crate, and the independent exact-rational oracle is evaluated on the crate's output, on 81k (quick) / 1.4M "
-               "(thorough) constructed literals incl. exact midpoints up to 770 digits and all 2^32 f32 patterns print->parse.",
+    level_text="Machine-checked (Lean 4, no axioms beyond the three standard ones): c07_correct (for every well-formed literal of fewer "
+               "than 2^29-20 digits and both targets, de.rs's digit collection + lexical + de.rs's infinity check and sign = "
+               "Model.Num.convertRoundtrip / convertRoundtripSingle: integers classified, otherwise nearest-even of the exact value, "
+               "sign kept incl. -0.0, underflow to +-0, NumberOutOfRange iff the rounding is infinite, exponent-overflow rule - no "
+               "further hypothesis); c07_nearest_even (the same against the independent specification: IsNearestEven64/32 of "
+               "Spec.Decimal's exact value, rejected exactly when Overflows64/32), c07_underflow, c07_other_literals (integers, "
+               "exponent beyond i32), c07_all_sources (the byte machine under float_roundtrip, from_str/from_slice/from_reader, "
+               "Value target, returns exactly that number or NumberOutOfRange), c07_roundtrip (under the named hypothesis "
+               "RyuShortest every finite f64/f32 is read back bit for bit - for f32 including the visitor's `as f32` on the exactly "
+               "widened result, F64.toF32 (F32.toF64 b) = b; c04_value_fr: hence every well-formed Value round-trips "
+               "under float_roundtrip). Layers: c07_split (the leaf of de.rs's digit collection and its arguments denote exactly "
+               "the literal's digits and decimal exponent); c07_cached_power_accuracy (10 small cached powers exact, 66 large ones "
+               "truncated) and c07_power_tables; c07_fast_path_exact; c07_into_float_rne; c07_moderate_path_sound (mul = "
+               "floor((a*b+2^63)/2^64), the booked error count strictly bounds the true error of the extended product - true "
+               "only with the repaired error_scale() booking -, an accepted estimate rounds like the exact value, a rejected one "
+               "leaves the exact value in the neighbourhood bhcomp assumes); c07_bhcomp_exact (Bigint as Nat; MAX_DIGITS "
+               "truncation argument 2^54*5^1075 < 10^768; sticky digit only for a non-zero tail); c07_parse_exact. The "
+               "transcription is run bit for bit against the crate, and the independent exact-rational oracle is evaluated on the "
+               "crate's output, on 81k (quick) / 1.4M (thorough) constructed literals incl. exact midpoints up to 770 digits and "
+               "all 2^32 f32 patterns print->parse.",
     level_note="Trusted: Lean kernel + 3 standard axioms; extract.py; harness/driver; Model.Lexical transcription validated bit for bit; "
-               "math.rs limb arithmetic abstracted by Nat. PARTIAL: moderate_path_sound is an explicit hypothesis of c07_correct_partial "
-               "(it was false on the pinned tree: finding C07-moderate-truncated was found while stating it); f32 top-level assembly "
-               "and c07_roundtrip not yet stated. Three genuine defects of the pinned tree found by this check (known_findings.json: "
-               "C07-zero-tail, C07-f32-negint, C07-moderate-truncated) were repaired in /repo by the fix: commits 1024dba, be03444, "
-               "eca65d4; the model follows the repaired code.",
+               "math.rs limb arithmetic abstracted by Nat; the named hypothesis RyuShortest about the external printer (only for "
+               "c07_roundtrip / c04_value_fr). The three findings of the pinned tree (C07-zero-tail, C07-f32-negint, "
+               "C07-moderate-truncated) are fixed in /repo (1024dba, be03444, eca65d4); c07_moderate_path_sound and c07_correct are "
+               "theorems about the repaired code (each is false of the pinned code on the finding's witness).",
 )
 
 # properties not claimed yet (kept current as checks are added)
